@@ -77,7 +77,10 @@ class Spheres(Scatterers):
             for j in range(i+1, len(self.scatterers)):
                 s2= self.scatterers[j]
                 try:
-                    if cartesian_distance(s1.center, s2.center) < (np.max(s1.r) + np.max(s2.r)):
+                    close = cartesian_distance(s1.center, s2.center) < (np.max(s1.r) + np.max(s2.r))
+                    # with a prior among the coordinates the comparison is
+                    # itself a (truthy) derived prior, not a verdict
+                    if isinstance(close, (bool, np.bool_)) and close:
                         overlaps.append((i, j))
                 except:
                     # if the coordinates are not something that we can do
